@@ -32,7 +32,9 @@ RULE = ("operations x 4 hashes x {seed, DH, P256, P384} x SID shapes (SD length 
 PARTIAL = [
     "C17_sync_async_partial (kept for the model-level statement) is now complemented by theorems ABOUT THE SOURCE: the regenerated whole bodies of _sync_get_key and "
     "_async_get_key (flows k_flow_sync_get_key / k_flow_async_get_key) are each tied to get_key_conversation at their flavour for every peer script, provider script and security "
-    "context (C17_flow_sync_get_key, C17_flow_async_get_key; precondition: a non-empty auth_protocol), and C17_flow_get_key_sync_async states that the two regenerated functions return "
+    "context (C17_flow_sync_get_key, C17_flow_async_get_key; precondition: a non-empty auth_protocol), in a CHECKING world (Flow/World_online.v) built from the model's own transcript: "
+    "create_rpc_connection / bind / request mean something only with the call's server and credentials, the port tr_port, the model's contexts and REQUEST PDUs octet-equal to "
+    "tr_ept_request / tr_getkey_request, so the ties carry request fidelity of the source (two mutants of the regenerated term are refused: C17_flow_mutants_refused), and C17_flow_get_key_sync_async states that the two regenerated functions return "
     "the same envelope or the same error whenever the two receive loops deliver the same PDUs (C14); request() of the two clients is the same term (C17_flow_request_twin). What remains "
     "partial: SyncRpcClient.bind is tied to the async body only syntactically (C15_flow_bind_twin: `self._auth.step(..)` mutates an attribute of a local, which the single-owner "
     "semantics cannot express on the sync side), and RpcClient._prepare_pdu patches frag_len / auth_len through a memoryview alias (no honest tie: kernels k_fraglen_patch + "
